@@ -1,0 +1,29 @@
+//go:build verif
+
+package lossless
+
+import "github.com/deepteams/webp/internal/bitio"
+
+// VerifPackedRead builds the four literal lookup tables (root size
+// HuffmanTableBits) of one HTreeGroup from the given code lengths, runs
+// buildPackedTable on the group and reads one pixel / green symbol with
+// readPackedSymbols from a reader positioned on `data` (>= 8 bytes).  It returns
+// what readPackedSymbols returned and the reader's bit position afterwards.
+// ok=false if a table cannot be built.  The caller decides eligibility (the
+// sum of the four maximal code lengths < HuffmanPackedBits), as
+// readHuffmanCodes does.
+func VerifPackedRead(lensG, lensR, lensB, lensA []int, data []byte) (argb uint32, greenCode int, isLiteral bool, bitPos int, ok bool) {
+	var group HTreeGroup
+	for j, lens := range [][]int{lensG, lensR, lensB, lensA} {
+		table, err := BuildHuffmanTable(HuffmanTableBits, lens)
+		if err != nil {
+			return 0, 0, false, 0, false
+		}
+		group.HTrees[j] = table
+	}
+	buildPackedTable(&group)
+	br := bitio.NewLosslessReader(data)
+	br.FillBitWindow()
+	argb, greenCode, isLiteral = readPackedSymbols(&group, br)
+	return argb, greenCode, isLiteral, br.BitPos(), true
+}
